@@ -293,3 +293,19 @@ for rf in (False, True):
         reg(nm, "quick", mk_cast)
 reg("Cast(4->[a:1,b:3])", "quick", lambda: StreamHarness("Cast(4->[a:1,b:3])", lambda: stream.Cast(4, [("a", 1), ("b", 3)]),
                                                        lambda H: Identity(4, 1), mode="free", alphabet=list(range(16)), M=16, maxpkt=2, nparam=1))
+
+
+# --- Shifter (PipelinedActor, latency 2): token k leaves as {data of the following pipeline slot, data k} >> shift; only the
+# low dw - shift bits are a function of the token itself and are compared, the rest depends on whatever follows in the pipe
+def _shifter_model(s, dw=4):
+    def mk(H):
+        m = Identity(dw, 3, mapraw=lambda raw: (raw & ((1 << dw) - 1)) >> s)
+        m.mask = (1 << (dw - s)) - 1
+        return m
+    return mk
+
+
+for s in (0, 1, 3):
+    nm = f"Shifter(dw=4,shift={s})/ids"
+    reg(nm, "quick" if s != 1 else "thorough", (lambda nm=nm, s=s: StreamHarness(nm, lambda: stream.Shifter(4), _shifter_model(s), M=6, maxpkt=2, nparam=1,
+                                                                                 ctrl=[("shift", [s])])))
